@@ -20,7 +20,7 @@ FLOORS = {'quick': {'state_changes': 3000, 'master_driven_entries': 1000, 'slave
                        'slave_entries_checked_against_the_newest_state_received': 8000,
                        'older_state_payloads_received_after_newer_ones': 2000}}
 COUNT = {'quick': 360, 'thorough': 8000}
-BUDGET_S = {'quick': 55, 'thorough': 540}
+BUDGET_S = {'quick': 90, 'thorough': 700}
 
 KNOBS = {'n_min': 1, 'n_max': 5, 'late_p': 0.3, 'trigger_p': 0.4, 'allow_user': True, 'allow_shutdown': True,
          'kinds': ['crash', 'restart', 'restart', 'partition', 'cutlink', 'crash_master', 'restart_master',
@@ -48,15 +48,22 @@ SLOW_KNOBS = {'n_min': 2, 'n_max': 4, 'late_p': 0.5, 'trigger_p': 0.2, 'fence': 
               'handshake_skew': [0.0, 0.3, 1.0, 2.0, 3.0]}
 
 
+# one-way link cuts longer than the failure detection, with slow handshakes: the cut-off side drops its peer (its
+# Master, possibly) and handshakes again when the link heals, while everybody goes through ELECTION
+ONEWAY_KNOBS = {'n_min': 2, 'n_max': 4, 'late_p': 0.1, 'trigger_p': 0.3, 'fence': 'false', 'both_p': 0.0,
+                'kinds': ['cutlink'], 'n_dist': [1, 2, 3], 'handshake_skew': [0.0, 0.5, 1.5, 3.0, 5.0]}
+
+
 def plan(tier, seed):
     return [{'seed': seed * 1000003 + i, 'family': 'closing-in-election' if i % 4 == 3 else 'general'}
             for i in range(COUNT[tier])] + \
-        [{'seed': seed * 1000003 + 800000 + i, 'family': 'slow-handshake'} for i in range(COUNT[tier] // 3)]
+        [{'seed': seed * 1000003 + 800000 + i, 'family': 'slow-handshake'} for i in range(COUNT[tier] // 3)] + \
+        [{'seed': seed * 1000003 + 810000 + i, 'family': 'one-way-cut'} for i in range(COUNT[tier])]
 
 
 def run_case(case):
     mon = StateGraphMonitor()
-    run = Run(case, {'closing-in-election': CLOSING_KNOBS, 'slow-handshake': SLOW_KNOBS}.get(case.get('family'), KNOBS),
+    run = Run(case, {'closing-in-election': CLOSING_KNOBS, 'slow-handshake': SLOW_KNOBS, 'one-way-cut': ONEWAY_KNOBS}.get(case.get('family'), KNOBS),
               [mon])
     violations = run.execute()
     sig = None
